@@ -265,6 +265,51 @@ def reentrant(typed, out):
     return done, problems
 
 
+def contended_reentrant(typed, opname, wait=0.25):
+    """the owner is inside `with tree:` while ANOTHER thread has already started the same snapshot operation (and waits for the
+    lock); the owner then calls that operation nested in its own block: it must return (re-entrant without deadlock), the
+    waiting thread must finish once the owner has left"""
+    tree = make_tree(typed)
+    ops_a = snapshot_ops(tree, typed)
+    ops_b = snapshot_ops(tree, typed)
+    inside, go_b = threading.Event(), threading.Event()
+    state = dict(a_nested=False, a_left=False, b_done=False, err=[])
+
+    def thread_a():
+        try:
+            with tree:
+                inside.set()
+                go_b.wait(2)
+                time.sleep(wait)          # B is now blocked somewhere inside its operation
+                ops_a[opname]()
+                state["a_nested"] = True
+            state["a_left"] = True
+        except Exception as e:  # noqa
+            state["err"].append("A: " + repr(e))
+
+    def thread_b():
+        try:
+            inside.wait(2)
+            go_b.set()
+            ops_b[opname]()
+            state["b_done"] = True
+        except Exception as e:  # noqa
+            state["err"].append("B: " + repr(e))
+
+    ta, tb = threading.Thread(target=thread_a, daemon=True), threading.Thread(target=thread_b, daemon=True)
+    ta.start()
+    tb.start()
+    ta.join(timeout=4)
+    tb.join(timeout=4)
+    problems = []
+    if not state["a_nested"] and not state["err"]:
+        problems.append(f"the owner's nested {opname} did not return while another thread was waiting in {opname} (deadlock)")
+    elif not state["b_done"] and not state["err"]:
+        problems.append(f"the waiting thread's {opname} did not finish after the owner had left (deadlock)")
+    problems += [f"raised {e}" for e in state["err"]]
+    return problems
+
+
 def stress(typed, n_writers, n_readers, rounds, out):
     """writers add/remove nodes in pairs inside `with tree:`; a consistent snapshot always has an even number of X-nodes"""
     tree = make_tree(typed)
@@ -629,6 +674,12 @@ def run(ctx):
         out.count((typed, "reentrant"), True)
         for p in problems:
             out.fail(dict(kind="reentrant", typed=typed), f"[{'TypedTree' if typed else 'Tree'}] {p}")
+        for opname in ops:
+            problems = contended_reentrant(typed, opname)
+            out.count((typed, opname, "contended-reentrant"), True)
+            out.dist["contended-reentrant:" + opname] += 1
+            for p in problems:
+                out.fail(dict(kind="contended-reentrant", typed=typed, op=opname), f"[{'TypedTree' if typed else 'Tree'}.{opname}, nested while another thread waits] {p}")
     deadlocked = any("deadlock" in f["what"] or "did not terminate" in f["what"] for f in out.oracle_failures)
     for typed in ((False, True) if not deadlocked else ()):
         bad = stress(typed, 4 if ctx.thorough else 2, 3 if ctx.thorough else 2, 300 if ctx.thorough else 40, out)
@@ -654,6 +705,9 @@ def replay(ctx, rp):
     if case.get("kind") == "reader-first":
         events, problems = reader_first_schedule(case["typed"], case["op"])
         return dict(events=events, problems=problems, property_holds=not problems)
+    if case.get("kind") == "contended-reentrant":
+        problems = contended_reentrant(case["typed"], case["op"])
+        return dict(problems=problems, property_holds=not problems)
     if case.get("kind") == "reentrant":
         done, problems = reentrant(case["typed"], out)
         return dict(done=done, problems=problems, property_holds=not problems)
